@@ -1,5 +1,6 @@
 module verif/harness
 
+
 go 1.22.0
 
 toolchain go1.22.4
@@ -110,6 +111,7 @@ require (
 	golang.org/x/oauth2 v0.23.0 // indirect
 	golang.org/x/sync v0.8.0 // indirect
 	golang.org/x/sys v0.25.0 // indirect
+	golang.org/x/text v0.18.0 // indirect
 	golang.org/x/time v0.6.0 // indirect
 	golang.org/x/xerrors v0.0.0-20240903120638-7835f813f4da // indirect
 	google.golang.org/api v0.197.0 // indirect
@@ -122,10 +124,6 @@ require (
 )
 
 require github.com/attestantio/dirk v0.0.0
-
-require (
-	github.com/anishathalye/porcupine v1.3.0
-	golang.org/x/text v0.18.0
-)
+require github.com/anishathalye/porcupine v1.3.0
 
 replace github.com/attestantio/dirk => /repo
